@@ -6,6 +6,7 @@ import (
 	"time"
 
 	"github.com/KevoDB/kevo/pkg/common/log"
+	"github.com/KevoDB/kevo/pkg/verifhook"
 	proto "github.com/KevoDB/kevo/proto/kevo/replication"
 )
 
@@ -140,6 +141,7 @@ func (h *heartbeatManager) checkSessions() {
 			}
 
 			// Send heartbeat (don't block on lock for too long)
+			verifhook.At("rp.hb.send")
 			if err := session.Stream.Send(heartbeat); err != nil {
 				log.Error("Failed to send heartbeat to session %s: %v", id, err)
 				session.Connected = false
